@@ -22,7 +22,7 @@ RULE = ("objects = LASFiles built in memory or read back from text (mnemonic_cas
         "specs with duplicated, blank and case-variant mnemonics in ~W/~P/~C/custom sections, float and text curves, "
         "string curves whose samples all look numeric, post-deletion states with stale suffixes, a deterministic grid of duplicate layouts, and every readable corpus file; each object x {pickle protocol "
         "0..5, deepcopy} x {whole LASFile, every section, every item}. distinct = distinct (object spec, method); "
-        "non-trivial = object with at least one disambiguated (duplicate or blank) mnemonic")
+        "non-trivial = object with at least one disambiguated (duplicate or blank) mnemonic Added later: identity-sensitive header values (the np.nan object, fresh NaNs, None, bools, numpy scalars), re-ordered / aliased column views, names assigned after construction, pickle's pure-Python unpickler.")
 ASSUMPTIONS = ["write() output is compared only when the original itself can be written",
                "observable equality = canonical snapshot (rv/canon.py) + write() text; identity of objects is not required"]
 REQUIRED = ["copies_compared", "objects_with_edited_index", "objects_with_disambiguated_mnemonic", "independence_checks", "write_text_comparisons",
